@@ -744,3 +744,26 @@ pub fn run_probes_faults(ad: &Addrs, listeners: &[String], wait: Duration, held:
     }
     out
 }
+
+/// Are all addresses of a run (listener slots 0..4, backend slots 5..7) free, TCP and UDP? The
+/// fault legs check this before a run: a run of ANOTHER harness process (a concurrent check on
+/// the same machine) that happens to use the same loopback IP and port block would look like a
+/// foreign process holding addresses the spec knows nothing about.
+pub fn addresses_free(ad: &Addrs) -> bool {
+    (0..8u16).all(|slot| {
+        let addr = ad.slot(slot);
+        TcpListener::bind(addr).is_ok() && std::net::UdpSocket::bind(addr).is_ok()
+    })
+}
+
+/// The addresses of fault run `index`: the first of a few candidates (other loopback IP, other
+/// port block) whose addresses are all free; None = give up (the run is skipped, never judged).
+pub fn free_addrs_for(index: u64, port: u16) -> Option<Addrs> {
+    for t in 0..4u64 {
+        let ad = Addrs::for_index(index + t * 100_003, port + (t as u16) * 16);
+        if addresses_free(&ad) {
+            return Some(ad);
+        }
+    }
+    None
+}
